@@ -74,6 +74,14 @@ func sampleBudget(kind string, n int) bool {
 	return true
 }
 
+func formatNames(fs []uint8) []string {
+	out := make([]string, len(fs))
+	for i, f := range fs {
+		out[i] = fmtName(f)
+	}
+	return out
+}
+
 func subjectClasses(s *Subject) []string {
 	var cl []string
 	if s.Inp != nil && s.Inp.Next != nil || s.In.Next != nil {
@@ -140,7 +148,7 @@ func TestPropHTTPResponse(t *testing.T) {
 		}
 		stats.Case("resp/"+accept+"/"+render(v), info.elements >= 2 || info.params, cl...)
 		if info.elements >= 2 && info.params && sampleBudget("accept", 1) {
-			stats.Sample("accept", map[string]any{"accept": accept, "names": info.named, "wildcard": info.wildcard, "answered_in": fmtName(chosen), "refused": !dumped})
+			stats.Sample("accept", map[string]any{"accept": accept, "names": formatNames(info.named), "wildcard": info.wildcard, "answered_in": fmtName(chosen), "refused": !dumped})
 		}
 	})
 }
